@@ -1236,14 +1236,14 @@ class MountPointStore(RoutingStore):
             if not prefix.endswith("/"):
                 prefix += "/"
             for key in store.keys():
-                if any(key.startswith(p) for p in prefixes):
+                if any((key + "/").startswith(p) for p in prefixes):
                     continue
                 if key.startswith(prefix):
                     yield key
             prefixes.append(prefix)
         if self.default_store is not None:
             for key in self.default_store.keys():
-                if any(key.startswith(p) for p in prefixes):
+                if any((key + "/").startswith(p) for p in prefixes):
                     continue
                 yield key
 
